@@ -10,7 +10,8 @@ generic arithmetic of DESIGN §2.1 (standard operator classes + `ArithFns`).  Co
 * `newtonLoop`, `findPstar`                           – lines 943–973 (the C++ `while` has no
   counter; the model takes a fuel argument and reports when it ran out)
 * `ustarOf`                                            – line 985
-* samplers (shock / rarefaction head, fan, tail; both sides) – lines 374–599
+* samplers (shock / rarefaction head, fan, tail; both sides) – lines 374–599 (the fan `base` is
+  clamped at zero, `std::max(0., …)`, as in /repo since f5cb687)
 * the vacuum regimes (lines 615–818 and the tests at the top of `solve`) are the definitions of
   `Model/RiemannVacuum.lean` (C05): `RiemannVacuum.solveIfVacuum`
 * `solve`                                              – lines 866–1002
